@@ -18,7 +18,7 @@ func init() {
 			"C04-WHO only Valid and exist call the recursive walker, exist is reached only for the rules exist and required. Nil sub-objects are skipped silently (shared with C13). The recursion is the same function, so the inductive step is the whole argument for arbitrary depth.",
 		Assume:  []string{"acyclic object graphs (property's exclusion)"},
 		Trusted: []string{"go/types", "go/ssa"},
-		Run:     runC04,
+		Run:     func(c *Ctx) { runC04(c); sharedDeclaredRules(c); runExportPred(c, "C04-EXPORT") },
 	})
 }
 
@@ -109,7 +109,11 @@ func runC04(c *Ctx) {
 			fld := fi + ".name"
 			// expected label
 			okLabel := false
-			for _, obj := range []string{"structName", strings.TrimSuffix(fi[:strings.LastIndex(fi, ".fieldInfos[")], "") + ".name"} {
+			objs := []string{"structName"}
+			if pc[`eq("",structName)`] == 1 { // outermost object: the path is the type's name
+				objs = append(objs, strings.TrimSuffix(fi[:strings.LastIndex(fi, ".fieldInfos[")], "")+".name")
+			}
+			for _, obj := range objs {
 				var want AVal = strCat(strCat(Sym{K: obj}, cstStr(".")), Sym{K: fld})
 				if shape != "once" {
 					want = strCat(strCat(strCat(want, cstStr("[")), Sym{K: "valid.ToStr(" + idx + ")"}), cstStr("]"))
